@@ -183,6 +183,26 @@ pub fn rungs() -> Vec<Rung> {
         b[28..30].copy_from_slice(&(n as u16).to_be_bytes());
         Case { prior: vec![], input: b }
     }));
+    v.push(rung("ipfix-announced-template-field-count-over-2-fields", 65535, |n| {
+        let mut b = ipfix_tpl_msg(256, &[fs(1, 4), fs(2, 4)]);
+        b[22..24].copy_from_slice(&(n as u16).to_be_bytes());
+        Case { prior: vec![], input: b }
+    }));
+    // n minimal template sets (12 bytes) / template flowsets each announcing 65 535 fields and holding one
+    v.push(rung("ipfix-n-template-sets-announcing-65535-fields-over-1", (65535 - 16) / 12, |n| {
+        let mut b = ipfix_message(&IpfixMsg::new((0..n).map(|k| IpfixSet::Tpl(vec![IpfixTpl { id: 256 + (k % 4000) as u16, fields: vec![fs(1, 4)] }], 0)).collect()));
+        for k in 0..n {
+            b[16 + 12 * k + 6..16 + 12 * k + 8].copy_from_slice(&65535u16.to_be_bytes());
+        }
+        Case { prior: vec![], input: b }
+    }));
+    v.push(rung("v9-n-template-flowsets-announcing-65535-fields-over-1", (65535 - 20) / 12, |n| {
+        let mut b = v9_packet(&V9Pkt::new((0..n).map(|k| V9Set::Tpl(vec![V9Tpl { id: 256 + (k % 4000) as u16, fields: vec![fs(1, 4)] }], 0)).collect()));
+        for k in 0..n {
+            b[20 + 12 * k + 6..20 + 12 * k + 8].copy_from_slice(&65535u16.to_be_bytes());
+        }
+        Case { prior: vec![], input: b }
+    }));
     v.push(rung("ipfix-announced-option-field-count-over-2-fields", 65535, |n| {
         let mut b = ipfix_message(&IpfixMsg::new(vec![IpfixSet::OptTpl(vec![IpfixOptTpl { id: 256, scope_count: 1, fields: vec![fs(149, 4), fs(41, 2)] }], 0)]));
         b[22..24].copy_from_slice(&(n as u16).to_be_bytes());
